@@ -365,6 +365,23 @@ def _build_cp_atom_payload(sequence, restrict, payload_form=False, interner=None
             return ()
         return (f(i[0].key, i[0].neg, i[0].pos),)
 
+    # a wildcard negation (-* or -FOO_*) acts on whatever happens to be set at
+    # that point, thus no setting can be moved across such a chunk; collapse the
+    # runs on either side of the last one independently and leave it in place.
+    for idx in range(len(i) - 1, -1, -1):
+        data = i[idx]
+        if any(x == "*" or x.endswith("_*") for x in data.neg):
+            is_global = data.key == packages.AlwaysTrue or getattr(
+                data.key, "is_simple", False
+            )
+            head = ()
+            if not (is_global and "*" in data.neg):
+                # anything else than an unconditional -* leaves earlier settings relevant
+                head = _build_cp_atom_payload(i[:idx], restrict, payload_form, interner)
+            tail = _build_cp_atom_payload(i[idx + 1 :], restrict, payload_form, interner)
+            key = restrict if is_global else data.key
+            return head + (f(key, data.neg, data.pos),) + tail
+
     i = reversed(i)
 
     for data in i:
